@@ -125,8 +125,9 @@ def main():
             target = meta.get('property', '?')
             hit = dict((p, v[len('VIOLATION '):]) for p, v in res.items() if v.startswith('VIOLATION'))
             verdict = 'detected by the target check' if target in hit else ('detected by another check' if hit else 'MISSED')
-            if 'error' in res:
-                verdict = 'not applicable to the current tree (' + str(meta.get('port_note', res['error']))[:200] + ')'
+            if 'error' in res or str(meta.get('port_note', '')).startswith('SUPERSEDED'):
+                verdict = 'not applicable to the current tree (' + str(meta.get('port_note', res.get('error')))[:260] + ')'
+                t[i] = dict(res, error='superseded')
             needs = str(meta.get('needs_to_manifest', meta.get('summary', '')))[:220].replace('|', '/').replace('\n', ' ')
             lines.append('| %s | %s | %s | %s | %s |' % (i, target, verdict, '; '.join('%s: %s' % kv for kv in sorted(hit.items())) or '-', needs))
         open(os.path.join(VERIF, 'seeded', 'RESULTS.md'), 'w').write('\n'.join(lines) + '\n')
